@@ -19,6 +19,7 @@ extern struct hx_proc hx_procs[HX_MAXPROC];
 extern size_t hx_nprocs;
 extern double hx_now, hx_stop, hx_late, hx_mono_off;
 extern int hx_iter_log;
+extern void (*hx_poll_hook)(void);
 extern long hx_fs_calls, hx_crash_at, hx_fault_at;
 extern int hx_fault_errno;
 extern long hx_spawn_fail_in;
